@@ -1158,6 +1158,11 @@ class Frame(object):
         t = self.cond_text(test, st)
         if t in self.sc.axioms:
             return self.sc.axioms[t]
+        if isinstance(test, ast.Name) and isinstance(st.env.get(test.id), Sym):
+            # a local flag computed once and tested again: this path has already decided it (the other combination is infeasible)
+            for f in reversed(st.facts):
+                if f[0] == t and isinstance(f[1], bool) and len(f) > 2 and f[2] is not None:
+                    return f[1]
         if t in ('True', 'False'):           # the test evaluated to a decided boolean (e.g. a scenario fact answered in value position)
             return t == 'True'
         if self.sc.oracle is not None and not isinstance(test, ast.BoolOp) and \
